@@ -163,6 +163,19 @@ def oracle_weights(ctx, fr, cj):
     if got != [float(v) for v in want]:
         ctx.violate(f"default timetrace weights {got} are not 1 where the reciprocal pair is recorded and 2 otherwise ({want}) for tx={tx} rx={rx}",
                     cj, {"kind": "weights"})
+    # the former names of the same things (kept by the library as deprecated aliases) answer the same
+    import warnings
+    with warnings.catch_warnings():
+        warnings.simplefilter("ignore")
+        try:
+            old = [float(v) for v in ut.default_scanline_weights(fr.tx, fr.rx)]
+            alias_ok = old == got and fr.numscanlines == fr.numtimetraces and np.array_equal(np.asarray(fr.scanlines), np.asarray(fr.timetraces))
+        except Exception as e:
+            alias_ok, old = False, repr(e)
+    ctx.count("deprecated_aliases")
+    if not alias_ok:
+        ctx.violate(f"a deprecated alias answers differently from the function it stands for: default_scanline_weights -> {old}, default_timetrace_weights -> {got} "
+                    f"(or numscanlines / scanlines differ from numtimetraces / timetraces) for tx={tx} rx={rx}", cj, {"kind": "alias"})
 
 
 def oracle_get_timetrace(ctx, fr, cj):
@@ -189,6 +202,17 @@ def oracle_get_timetrace(ctx, fr, cj):
                 ctx.violate(f"get_timetrace({i},{j}) does not return the timetrace recorded for that pair (tx={pairs})", cj, {"kind": "get_timetrace"})
         elif got is not None:
             ctx.violate(f"get_timetrace({i},{j}) returned data although the pair was not recorded (tx/rx={pairs})", cj, {"kind": "get_timetrace"})
+        import warnings
+        with warnings.catch_warnings():
+            warnings.simplefilter("ignore")
+            try:
+                old = fr.get_scanline(i, j)
+            except IndexError:
+                old = None
+            except Exception as e:
+                old = e
+        if (old is None) != (got is None) or (got is not None and not (isinstance(old, np.ndarray) and np.array_equal(old, got))):
+            ctx.violate(f"get_scanline({i},{j}) (deprecated alias) does not answer what get_timetrace({i},{j}) answers (tx/rx={pairs})", cj, {"kind": "alias"})
     ctx.count("get_timetrace", len(asked))
 
 
